@@ -1,7 +1,6 @@
 package colvet
 
 import (
-	"os"
 	"fmt"
 	"go/token"
 	"go/types"
@@ -666,8 +665,35 @@ func ruleWholeCommits(r *Report) {
 			v = norm(v)
 			return isCountRead(v) || dependsOn(v, isCountRead, 5)
 		})
-		if os.Getenv("COLVET_DEBUG_ARMS") != "" {
-			fmt.Fprintf(os.Stderr, "READSTATE inner=%s ok=%v nNil=%d appOK=%v bound=%v\n", fnName(inner), ok, nNil, appOK, bound)
+		// every read error fails the block: on no path does the function return nil, or go on to
+		// read the next buffer, after a ReadFrom that returned a non-nil error
+		if len(rf) == 1 {
+			isReadErr := func(v ssa.Value) bool {
+				cl, isEx := extractOf(norm(v), 1)
+				return isEx && cl == rf[0].(*ssa.Call)
+			}
+			cfg := pathCfg{names: []string{"readFailed"}, starLoops: true, leaf: func(c ssa.Value) (string, bool, bool) {
+				if x, nonNil, isN := nilTest(c); isN && isReadErr(x) {
+					return "readFailed", !nonNil, true
+				}
+				return "", false, false
+			}, classify: func(ins ssa.Instruction) string {
+				if ins == rf[0] {
+					return "read"
+				}
+				return ""
+			}}
+			propagates, _ := evalPathsDeep(inner, cfg, func(as map[string]bool, ev []pathEvent, ret *ssa.Return) bool {
+				if !as["readFailed"] || countEvents(ev, "read") == 0 {
+					return true
+				}
+				if ret == nil {
+					return false // went round the loop after a failed read
+				}
+				res := ret.Results[len(ret.Results)-1]
+				return !isConstNil(res)
+			})
+			h.Check(propagates, "(*column.Collection).readState/read-error", r.P.InstrPos(rf[0]), "a failed buffer read fails the block's transaction", "after a buffer read that returned an error the block's transaction can still return nil or go on reading (an error other than the ones tested for is ignored): a snapshot cut inside a compressed frame restores a block with the pages read so far")
 		}
 		h.Check(ok && nNil == 1 && appOK && bound, "(*column.Collection).readState/block", r.P.Pos(inner.Pos()), "nil only after all `columns` buffers were read", "a block's transaction can commit although not every buffer of the block was read (a truncated block is applied partially)")
 		// goes through Query
